@@ -38,7 +38,7 @@ use crate::drivers::CopyDriver;
 use crate::errors::{Result, XcpError};
 use crate::feedback::{StatusUpdate, StatusUpdater};
 use crate::operations::{CopyHandle, Operation, tree_walker};
-use libfs::{copy_file_offset, map_extents, merge_extents, probably_sparse};
+use libfs::{copy_file_offset, map_extents, merge_extents, next_sparse_segments, probably_sparse};
 
 // ********************************************************************** //
 
@@ -198,7 +198,20 @@ fn queue_file_blocks(
             }
             queued
         } else {
-            queue_whole_file()?
+            // No extent map (tmpfs, for one, has none): find the
+            // data segments by seeking, as the parfile driver does,
+            // rather than writing out every hole.
+            let mut queued = 0;
+            let mut pos = 0;
+            while pos < len {
+                let (data, hole) = next_sparse_segments(&harc.infd, &harc.outfd, pos)?;
+                if data >= hole {
+                    break;
+                }
+                queued += queue_file_range(&harc, data..hole, pool, status_channel, failed)?;
+                pos = hole;
+            }
+            queued
         }
     } else {
         queue_whole_file()?
